@@ -5,4 +5,5 @@ cd "$(dirname "$0")"
 export GOFLAGS=-mod=mod GOPROXY=off GOSUMDB=off GOTOOLCHAIN=local GOCACHE=/verif/.gocache
 mkdir -p /verif/bin /verif/evidence /verif/replays
 ( cd /verif/mc && cp -f /repo/go.sum go.sum && go build -o /verif/bin/mc . )
+( cd /verif/race && cp -f /repo/go.sum go.sum && go build -race -o /verif/bin/race . )
 echo setup ok
